@@ -679,7 +679,7 @@ class GroupBy:
             if isinstance(orig_type, pl.DataType):
                 series = pl.Series(arr, dtype=orig_type)
                 arrow = series.to_arrow()
-                arr = arrow.to_numpy()
+                arr = arrow.to_numpy(zero_copy_only=False)  # nulls (NaT) need a copy
                 dtype = pd.ArrowDtype(arrow.type)
             else:
                 arr = arr.view(int)
@@ -929,6 +929,14 @@ class GroupBy:
         for i in range(n_values):
             slice_ = slice(i * len(group_keys), (i + 1) * len(group_keys))
             results_one_value = results[slice_]
+            # temporal results are merged as int64 (NaT is the int64 null) and viewed back afterwards
+            time_dtype = (
+                results_one_value[0].dtype
+                if results_one_value[0].dtype.kind in "mM"
+                else None
+            )
+            if time_dtype is not None:
+                results_one_value = [r.view("int64") for r in results_one_value]
             combined = numba_funcs._build_target_for_groupby(
                 results_one_value[0].dtype,
                 # per-chunk counts are added up: a counting target would be boolean
@@ -953,6 +961,8 @@ class GroupBy:
                     y_counts=chunk_count,
                 )
                 count[pointer] += chunk_count
+            if time_dtype is not None:
+                combined = combined.view(time_dtype)
             individual_results.append((combined, count))
 
         return individual_results
